@@ -295,12 +295,18 @@ func c19RunScenario(sc c19Scenario) c19ChildOut {
 		phase.Store("workers-stopped")
 		t1 := time.Now()
 		left := c19PoolGoroutines()
-		for left > 0 && time.Since(t1) < c19Slack {
+		gslack := c19Slack
+		mu.Lock()
+		if len(out.Fails) > 0 { // already a violation: do not spend the full slack on this one
+			gslack = 300 * time.Millisecond
+		}
+		mu.Unlock()
+		for left > 0 && time.Since(t1) < gslack {
 			time.Sleep(time.Millisecond)
 			left = c19PoolGoroutines()
 		}
 		if left > 0 {
-			fail("C19/hang/worker-not-stopped", fmt.Sprintf("%d goroutine(s) of the pool (workers / dispatcher) still exist %v after Release returned (W=%d Q=%d mode=%s)", left, c19Slack, sc.W, sc.Q, sc.Mode))
+			fail("C19/hang/worker-not-stopped", fmt.Sprintf("%d goroutine(s) of the pool (workers / dispatcher) still exist %v after Release returned (W=%d Q=%d mode=%s)", left, gslack, sc.W, sc.Q, sc.Mode))
 		}
 		// anything that starts after Release returned shows up behind release-return in the trace
 		phase.Store("settle")
@@ -542,7 +548,7 @@ func c19Gen(tier string, rng *rand.Rand) []c19Case {
 	}
 	extra := 200
 	if tier == "thorough" {
-		extra = 900
+		extra = 4000
 	}
 	for i := 0; i < extra; i++ {
 		cs = append(cs, mk(ws[rng.Intn(5)], qs[rng.Intn(5)], modes[rng.Intn(3)]))
@@ -558,7 +564,15 @@ func c19Coq(c *c19Case) string {
 	for _, e := range c.Trace {
 		fmt.Fprintf(&sb, "%02x%04x", e[0], e[1]&0xffff)
 	}
-	return fmt.Sprintf("mkcase %d %s (unhex \"%s\"%%hex)", c.Sc.W, coqBool(c.Complete), sb.String())
+	// FIFO check (one worker: start order = hand-over order = send order); cubic in the number of jobs, so short traces only
+	calls := 0
+	for _, e := range c.Trace {
+		if e[0] == c19KSubCall {
+			calls++
+		}
+	}
+	fifo := c.Sc.W == 1 && calls <= 200
+	return fmt.Sprintf("mkcase %d %s %s (unhex \"%s\"%%hex)", c.Sc.W, coqBool(c.Complete), coqBool(fifo), sb.String())
 }
 
 func init() {
@@ -569,7 +583,7 @@ func init() {
 			Require:  "From TarsV Require Import Base.Hex Conc.Gpool.",
 			CaseType: "tcase",
 			Mismatch: "c19_mismatch",
-			Corr:     "Gpool.accepts / accepts_complete (specification machine of the pool) on the recorded event trace",
+			Corr:     "Gpool.accepts / accepts_complete (specification machine of the pool) on the recorded event trace; with one worker also Gpool.fifo1_ok (start order respects send order)",
 			Rule:     "distinct (W, Q, mode, job duration class, GOMAXPROCS, submitters bucket) configurations whose trace contains at least one job start and a Release",
 			Shard:    12,
 			Gen:      c19Gen,
